@@ -18,12 +18,13 @@ EXTENDS Integers, Sequences, FiniteSets, TLC
 CONSTANTS NAcc, NSlot, MaxVal,   \* shape of the worlds explored by TLC
           MaxDiffs,              \* set of values of maxDiffLayers explored
           HistLimits,            \* set of values of Config.StateHistory explored (0 = keep all)
-          Policies,              \* subset of {"always","never"}: is the write buffer full after a merge?
+          Policies,              \* subset of {"always","never","any"}: is the write buffer full after a merge?
+          Asyncs,                \* subset of BOOLEAN: asynchronous buffer flushing (!NoAsyncFlush)
           MaxId                  \* bound on state ids explored by TLC
 
 NoVal == -1
 
-VARIABLES cfg,      \* [maxDiff, histLimit]  (constant during a behaviour)
+VARIABLES cfg,      \* [maxDiff, histLimit, pol, async]  (constant during a behaviour)
           chain,    \* Seq([root, diff]) : in-memory diff layers of the current branch, bottom first
           disk,     \* [root, id]        : the disk layer
           buf,      \* [Key -> Val \cup {NoVal}] : aggregated write buffer of the disk layer
@@ -31,11 +32,13 @@ VARIABLES cfg,      \* [maxDiff, histLimit]  (constant during a behaviour)
           kv,       \* [world, pid]      : persisted flat state + trie nodes, persistent state id
           ids,      \* [World -/-> Nat]  : persisted root->id table (never cleaned)
           hist,     \* [tail, head, recs]: state freezer; recs[i] = [parent, root, prev] for tail < i <= head
+          jr,       \* layer journal stored in the key-value store (written by Journal, never deleted):
+                    \* [has, base = persisted state it was written over, disk, buf, chain, rolled]
           zombies,  \* ghost: roots of abandoned in-memory layers that may linger in the layer tree
           res       \* outcome of the last call (observation only)
 
-core == <<chain, disk, buf, bufN, kv, ids, hist>>
-vars == <<cfg, chain, disk, buf, bufN, kv, ids, hist, zombies, res>>
+core == <<chain, disk, buf, bufN, kv, ids, hist, jr>>
+vars == <<cfg, chain, disk, buf, bufN, kv, ids, hist, jr, zombies, res>>
 
 (* ------------------------------- worlds -------------------------------- *)
 NK       == NAcc * (NSlot + 1)
@@ -64,14 +67,17 @@ View(s) == Over(s.kv.world, s.buf)           \* what the disk layer serves
 Restrict(f, S) == [x \in S |-> f[x]]
 
 (* diskLayer.commit(bottom, force): history first, then root->id, merge, maybe flush.      *)
-CommitOne(s, c, full, force) ==
+(* pidSeen is the persistent state id read by writeHistory: with asynchronous flushing it  *)
+(* may still be the value from before the flush scheduled by the previous commit of the    *)
+(* same call (the wait for the frozen buffer comes after the history is written).          *)
+CommitOne(s, c, full, force, pidSeen) ==
   LET L        == Head(s.chain)
       id       == s.disk.id + 1
       rec      == [parent |-> s.disk.root, root |-> L.root, prev |-> PrevOf(s.disk.root, L.diff)]
       recs1    == [i \in (DOMAIN s.hist.recs) \cup {id} |-> IF i = id THEN rec ELSE s.hist.recs[i]]
       over     == c.histLimit # 0 /\ id - s.hist.tail > c.histLimit
       newFirst == id - c.histLimit + 1
-      skip     == over /\ s.kv.pid < newFirst          \* skip tail truncation, force a flush instead
+      skip     == over /\ pidSeen < newFirst           \* skip tail truncation, force a flush instead
       tail1    == IF over /\ ~skip THEN newFirst - 1 ELSE s.hist.tail
       hist1    == [tail |-> tail1, head |-> id, recs |-> Restrict(recs1, {i \in DOMAIN recs1 : i > tail1})]
       ids0     == IF s.disk.id = 0 THEN (s.disk.root :> 0) @@ s.ids ELSE s.ids
@@ -86,9 +92,14 @@ CommitOne(s, c, full, force) ==
        ids   |-> ids1,
        hist  |-> hist1]
 
-RECURSIVE Flatten(_, _, _, _)
-Flatten(s, c, fs, force) ==
-  IF fs = <<>> THEN s ELSE Flatten(CommitOne(s, c, Head(fs), force), c, Tail(fs), force)
+(* flatten Len(fs) layers; fs[i] = buffer full after merging layer i, sts[i] = layer i's    *)
+(* writeHistory saw the persistent id from before the previous layer's flush               *)
+RECURSIVE FlattenFrom(_, _, _, _, _, _)
+FlattenFrom(s, c, fs, force, sts, prevPid) ==
+  IF fs = <<>> THEN s
+  ELSE FlattenFrom(CommitOne(s, c, Head(fs), force, IF Head(sts) THEN prevPid ELSE s.kv.pid),
+                   c, Tail(fs), force, Tail(sts), s.kv.pid)
+Flatten(s, c, fs, force, sts) == FlattenFrom(s, c, fs, force, sts, s.kv.pid)
 
 (* Database.Recoverable *)
 RecoverableIn(s, r) ==
@@ -120,19 +131,28 @@ TruncHead(h, n) == [h EXCEPT !.head = n, !.recs = Restrict(@, {i \in DOMAIN @ : 
 
 ChainRoots(c) == {c[i].root : i \in 1..Len(c)}
 
-FullVals == {p = "always" : p \in Policies}
+NoJournal == [has |-> FALSE]
+(* loadJournal/loadDiskLayer accept the stored journal iff it was written over the persisted *)
+(* state found in the key-value store and the persistent id does not exceed its disk id     *)
+JournalMatches == jr.has /\ jr.base = kv.world /\ kv.pid <= jr.disk.id
+
+FullVals == IF cfg.pol = "always" THEN {TRUE} ELSE IF cfg.pol = "never" THEN {FALSE} ELSE BOOLEAN
 Flags(n) == IF n = 0 THEN {<<>>} ELSE {<<b>> : b \in FullVals}    \* one Update flattens at most one layer
 RECURSIVE Falses(_)
 Falses(n) == IF n = 0 THEN <<>> ELSE Append(Falses(n - 1), FALSE)
+RECURSIVE BoolSeqs(_)
+BoolSeqs(n) == IF n = 0 THEN {<<>>} ELSE {Append(q, b) : q \in BoolSeqs(n - 1), b \in BOOLEAN}
+Stales(n) == IF cfg.async /\ n > 1 THEN {<<FALSE>> \o q : q \in BoolSeqs(n - 1)} ELSE {Falses(n)}
 
 (* --------------------------------- actions --------------------------------- *)
-Init == /\ cfg \in [maxDiff : MaxDiffs, histLimit : HistLimits]
+Init == /\ cfg \in [maxDiff : MaxDiffs, histLimit : HistLimits, pol : Policies, async : Asyncs]
         /\ chain = <<>>
         /\ disk = [root |-> [k \in Key |-> 0], id |-> 0]
         /\ buf = [k \in Key |-> NoVal] /\ bufN = 0
         /\ kv = [world |-> [k \in Key |-> 0], pid |-> 0]
         /\ ids = <<>>
         /\ hist = [tail |-> 0, head |-> 0, recs |-> <<>>]
+        /\ jr = NoJournal
         /\ zombies = {}
         /\ res = [op |-> "init"]
 
@@ -158,17 +178,20 @@ UpdateTo(j, d, fs) ==
               /\ res' = [op |-> "Update", r |-> "dup"]
          ELSE /\ r \notin zombies
               /\ Len(fs) = n
-              /\ Set(Flatten([Cur EXCEPT !.chain = c1], cfg, fs, FALSE))
+              /\ Set(Flatten([Cur EXCEPT !.chain = c1], cfg, fs, FALSE, Falses(n)))
+              /\ UNCHANGED jr
               /\ zombies' = (zombies \cup gone) \ {r}
               /\ res' = [op |-> "Update", r |-> "ok"]
 
 (* Database.Commit(root of layer i): flatten layers 1..i with force, drop everything else *)
-CommitAt(i) ==
+CommitAt(i, sts) ==
   /\ i \in 0..Len(chain)
   /\ UNCHANGED cfg
   /\ IF i = 0
-     THEN UNCHANGED <<core, zombies>> /\ res' = [op |-> "Commit", r |-> "err"]
-     ELSE /\ Set([Flatten([Cur EXCEPT !.chain = SubSeq(chain, 1, i)], cfg, Falses(i), TRUE) EXCEPT !.chain = <<>>])
+     THEN sts = <<>> /\ UNCHANGED <<core, zombies>> /\ res' = [op |-> "Commit", r |-> "err"]
+     ELSE /\ Len(sts) = i
+          /\ Set([Flatten([Cur EXCEPT !.chain = SubSeq(chain, 1, i)], cfg, Falses(i), TRUE, sts) EXCEPT !.chain = <<>>])
+          /\ UNCHANGED jr
           /\ zombies' = {}
           /\ res' = [op |-> "Commit", r |-> "ok"]
 
@@ -181,6 +204,7 @@ RecoverTo(r) ==
               s   == out.st
               fin == [s EXCEPT !.chain = <<>>, !.hist = TruncHead(@, s.disk.id)]
           IN  /\ Set(IF out.ok THEN fin ELSE [s EXCEPT !.chain = <<>>])
+              /\ jr' = IF jr.has THEN [jr EXCEPT !.rolled = TRUE] ELSE jr    \* ghost: a rollback happened after the journal
               /\ zombies' = {}
               /\ res' = [op |-> "Recover", w |-> r, ok |-> out.ok, can |-> TRUE, id |-> ids[r]]
 
@@ -189,27 +213,38 @@ Reopen(i) ==
   /\ i \in 0..Len(chain)
   /\ UNCHANGED <<cfg, disk, buf, bufN, kv, ids, hist>>
   /\ chain' = SubSeq(chain, 1, i)
+  /\ jr' = [has |-> TRUE, base |-> kv.world, disk |-> disk, buf |-> buf, chain |-> SubSeq(chain, 1, i), rolled |-> FALSE]
   /\ zombies' = {}
   /\ res' = [op |-> "Reopen"]
 
-(* Close without journal + New (all freezer data synced by Close): in-memory layers and    *)
-(* the buffer are lost, histories above the persistent id are truncated (repairHistory)    *)
+(* Close without journal + New (all freezer data synced by Close).  Without an acceptable  *)
+(* journal the in-memory layers and the buffer are lost and histories above the persistent *)
+(* id are truncated (repairHistory); an acceptable journal from an earlier shutdown is      *)
+(* loaded instead.  This module covers the unclean restart only when no rollback happened   *)
+(* since that journal was written (otherwise the journal describes layers of an abandoned   *)
+(* branch: crash-consistency of that case is property C20, see PathDBCrash.tla).            *)
 Restart ==
-  /\ hist.tail <= kv.pid /\ kv.pid <= hist.head       \* otherwise the database refuses to open
-  /\ UNCHANGED <<cfg, kv, ids>>
-  /\ chain' = <<>>
-  /\ disk' = [root |-> kv.world, id |-> kv.pid]
-  /\ buf' = NoneLike(buf) /\ bufN' = 0
-  /\ hist' = TruncHead(hist, kv.pid)
+  /\ JournalMatches => ~jr.rolled
+  /\ UNCHANGED <<cfg, kv, ids, jr>>
   /\ zombies' = {}
-  /\ res' = [op |-> "Restart"]
-
+  /\ IF JournalMatches
+     THEN /\ jr.disk.id <= hist.head
+          /\ chain' = jr.chain /\ disk' = jr.disk /\ buf' = jr.buf
+          /\ bufN' = jr.disk.id - kv.pid
+          /\ hist' = TruncHead(hist, jr.disk.id)
+          /\ res' = [op |-> "Restart", restored |-> TRUE]
+     ELSE /\ hist.tail <= kv.pid /\ kv.pid <= hist.head       \* otherwise the database refuses to open
+          /\ chain' = <<>>
+          /\ disk' = [root |-> kv.world, id |-> kv.pid]
+          /\ buf' = NoneLike(buf) /\ bufN' = 0
+          /\ hist' = TruncHead(hist, kv.pid)
+          /\ res' = [op |-> "Restart", restored |-> FALSE]
 
 Next ==
   \/ \E j \in 0..Len(chain) :
        \E d \in DiffsOn(IF j = 0 THEN disk.root ELSE chain[j].root) :
          \E n \in 0..1 : \E fs \in Flags(n) : UpdateTo(j, d, fs)
-  \/ \E i \in 0..Len(chain) : CommitAt(i)
+  \/ \E i \in 0..Len(chain) : \E sts \in Stales(i) : CommitAt(i, sts)
   \/ \E r \in Worlds : RecoverTo(r)
   \/ \E i \in 0..Len(chain) : Reopen(i)
   \/ Restart
@@ -217,6 +252,8 @@ Next ==
 Spec == Init /\ [][Next]_vars
 
 Bounded == disk.id + Len(chain) <= MaxId
+
+StateView == <<cfg, chain, disk, buf, bufN, kv, ids, hist, jr, zombies>>     \* res is observation only
 
 (* ------------------------------- properties ------------------------------- *)
 (* canonical state at id i according to the freezer (tail <= i <= head) *)
